@@ -10,7 +10,7 @@ def run(ctx):
     # the spec's TpFqLoadThreads runs the functor inline iff numThreads_ == 0 and for nothing else; every recorded step
     # of the real code that runs a task inside a submitting call must therefore be that step with numThreads_ == 0
     ctx.check_model(pc.SPEC, 'MCPool.tla', 'MC_q2_basic.cfg' if not thorough else 'MC_q_basic.cfg', WHAT,
-                    label='fq (+ sched) + destructor', workers=8, required=('TpFqLoadThreads', 'TpAddWork', 'TpWkDequeue'), timeout=3000, heap='16g')
+                    label='fq (+ sched) + destructor', workers=8, required=('TpFqLoadThreads', 'TpAddWork', 'TpEnqueue'), timeout=3000, heap='16g')
     exe = pc.build(ctx, 2)
     rng = random.Random(ctx.seed + 47)
     progs = ['main:new1,fq1,fq2,fq3,fq4,del', 'main:new2,pfq1,pfq2,placed3,pfq4,del', 'main:new2,up,fq1,fq2,sync,del;p2:up,fq5,fq6,sched7',
